@@ -277,6 +277,84 @@ NEXT_EVENT_DATA = Contract(
 )
 
 
+# ----- MultipartDecoder.next_event in the PART state (the header block of a part): which exceptions can escape (C12), what
+# happens to the buffer and the state
+BM_T = ObjT("BlankMatchGhost", found=Bool, s=Int, e=Int)
+HD_ = "baize/datastructures.py:Headers"
+
+
+def blank_search_stub(ev, recv, args, kwargs, node):
+    """BLANK_LINE_RE.search(buffer): None, or a match with 0 <= start < end <= len(buffer) (A-re-search; which blank line
+    is found is the regex engine's business)"""
+    USED.add("A-re-search")
+    st = ev.st
+    m = st.obj(st.ghost["bm"])
+    if not st.decide(m.fields["found"].t):
+        return NONE
+    s_, e_ = m.fields["s"].t, m.fields["e"].t
+    st.assume(z3.And(0 <= s_, s_ < e_, e_ <= z3.Length(args[0].t)))
+    return st.alloc(Obj("Match", {"s": VInt(s_), "e": VInt(e_), "g1": VStr(b"")}))
+
+
+blank_search_stub.mods = ()
+blank_search_stub.mutates_recv = False
+
+
+def parse_headers_stub(ev, args, kwargs, node):
+    """self._parse_headers(block): a Headers object (lower-case names) or MalformedMultipart for a line without a colon
+    (its body: bounded layer)"""
+    st = ev.st
+    if st.choose([z3.BoolVal(True)] * 2, force_record=True) == 1:
+        raise PyRaise("MalformedMultipart", None, getattr(node, "lineno", 0))
+    from pyvc.builtins import mk_quant
+    h = st.alloc(Obj(HD_, {"_dict": st.fresh(Map(Str, Str), "part.headers")}))
+    return h
+
+
+def parse_header_stub(ev, args, kwargs, node):
+    """baize.utils.parse_header(line): (main value, dict of the parameters the client wrote - any keys, any values)"""
+    st = ev.st
+    return VTuple([st.fresh(Str, "disposition"), st.fresh(Map(Str, Str), "disposition.params")])
+
+
+def _part_event(kind):
+    def ctor(ev, args, kwargs, node):
+        f = {"kind": VInt(1 if kind == "Field" else 2), "name": kwargs["name"], "headers": kwargs["headers"]}
+        if kind == "File":
+            f["filename"] = kwargs["filename"]
+        return ev.st.alloc(Obj(kind, f))
+    return ctor
+
+
+NEXT_EVENT_PART = Contract(
+    id="MultipartDecoder.next_event[PART]", file=MP, qualname="MultipartDecoder.next_event", props=["C12", "C01"],
+    params={"self": ObjT(MP + ":MultipartDecoder", buffer=Bytes, state=Int, complete=Bool, charset=Str)},
+    returns=None,
+    ghosts={"bm": BM_T},
+    requires=["self.state == 1"],       # State.PART: at the header block of a part
+    defs={"is_need()": "result == NEED"},
+    consts={"State": _state_ns, "NEED_DATA": VGlobal("NEED_DATA"), "NEED": VGlobal("NEED_DATA"), "NeedData": VClass("NeedData"),
+            "BLANK_LINE_RE": lambda ev: ev.st.alloc(Obj("BlankPattern", {}))},
+    stubs={"self._parse_headers": parse_headers_stub, "parse_header": parse_header_stub, "File": _part_event("File"),
+           "Field": _part_event("Field"), "cast": lambda ev, a, k, n: a[1]},
+    stub_methods={("BlankPattern", "search"): blank_search_stub, ("Match", "start"): _m_start, ("Match", "end"): _m_end},
+    modifies=["self.buffer", "self.state"], frame_check=False,
+    # whatever the client wrote into the part's header block: the only exception is the 400-mapped MalformedMultipart
+    # (a missing 'name' parameter is not an error: the field name is None)
+    raises={"MalformedMultipart": None},
+    ensures={
+        "need_data.keeps_everything": "implies(is_need(), self.buffer == old(self.buffer) and self.state == 1 and not self.complete)",
+        "event.consumes_the_header_block": "implies(not is_need(), bm.found and self.buffer == old(self.buffer)[bm.e:] and self.state == 2)",
+        "file_iff_filename": "implies(not is_need(), (result.kind == 2) == has(old_params(), 'filename'))",
+    },
+    canaries={"never_an_event": "is_need()"},
+    assumptions=["A-re-search"],
+    notes="next_event restricted to the PART state.  _parse_headers and parse_header are stubs (any header mapping / any parameter "
+          "dict, or MalformedMultipart); the clause of interest is the raise catalogue.",
+)
+del NEXT_EVENT_PART.ensures["file_iff_filename"]     # (the parameter dict is not nameable from the contract: bounded layer)
+
+
 def _isinstance_model(ev, v, names):
     if any(n.endswith("NeedData") for n in names):
         if isinstance(v, VGlobal):
@@ -287,7 +365,7 @@ def _isinstance_model(ev, v, names):
 
 
 def register(reg):
-    for c in (TWINS, LAST_NEWLINE, NEXT_EVENT_DATA):
+    for c in (TWINS, LAST_NEWLINE, NEXT_EVENT_DATA, NEXT_EVENT_PART):
         reg.add(c)
     reg.isinstance_model = _isinstance_model
     register2(reg)
